@@ -499,9 +499,77 @@ fn break_lock_race(seed: u64, report: &mut Report) {
     }
 }
 
+
+/// Directed (real code + the property's oracle): the race window of D7 again — the backup creates its band
+/// between the collector's look at the versions and its `GC_LOCK` write — while the COLLECTOR suffers two
+/// consecutive storage failures at its last look ("has a version appeared?"): the listing of the archive directory
+/// fails and so does the stat of the next version's head.  A collector that cannot tell must not delete.
+fn check_under_two_faults(seed: u64, report: &mut Report) {
+    let case_seed = seed.wrapping_mul(1_000_003) ^ 0x2FA7;
+    let ca = content_with_prefix("a", case_seed, None);
+    let prefix = blake_hex(&ca)[..3].to_string();
+    let cb = content_with_prefix("b", case_seed, Some(&prefix));
+    let cg = content_with_prefix("garbage", case_seed, Some(&prefix));
+    let t0 = 1_600_000_000_000_000_000i64;
+    let t1 = tree_of(&[("a", &ca, t0 + 1), ("b", &cb, t0 + 2)]);
+    let t3 = tree_of(&[("a", &ca, t0 + 1), ("b", &cb, t0 + 2), ("n", &cg, t0 + 9)]);
+    let pl = BackupParamsLite { hunk: HUNK, block: BLOCK, cap: CAP };
+    let steps = vec![Step::SetTree(t1), Step::Backup(pl), Step::SetTree(t3)];
+    let case_id = json!({"directed": "gc racing a backup while the collector's last look fails twice", "garbage_block_content": String::from_utf8_lossy(&cg)});
+    let mut sc = build_scenario(&steps, report, &case_id, "gc-race-prefix");
+    let _ = plant_block(&sc.run.arch, &cg);
+    sc.pre_state = abstract_archive(&sc.run.arch).0;
+    let a = ActorSpec::Backup { params: BackupParamsOwned { hunk: HUNK, block: BLOCK, cap: CAP }, source: sc.run.src.clone(), slot: 0 };
+    let b = ActorSpec::Delete { bands: vec![], dry_run: false };
+    let arch = fresh_copy(&sc, "cfsolo");
+    let (sa, _) = run_schedule(&arch, &a, &b, &[]);
+    remove_copy(&arch);
+    let arch = fresh_copy(&sc, "cfsolo");
+    let (_, sb) = run_schedule(&arch, &a, &b, &vec![true; 400]);
+    remove_copy(&arch);
+    let a_listed = sa.trace.iter().rposition(|l| { let p = parts(l); p[1] == "list" && p[2].starts_with("d") }).unwrap_or(sa.trace.len().saturating_sub(1));
+    let b_lock = sb.trace.iter().position(|l| { let p = parts(l); p[1] == "write" && p[2] == "GC_LOCK" }).unwrap_or(4);
+    let first_rm = sb.trace.iter().position(|l| parts(l)[1] == "rm" && parts(l)[2].starts_with("d/")).unwrap_or(sb.trace.len());
+    let lists_before_rm = sb.trace[..first_rm].iter().filter(|l| { let p = parts(l); p[1] == "list" && p[2] == "." }).count();
+    if lists_before_rm == 0 {
+        return;
+    }
+    for kind in ["ot", "pd"] {
+        let faults_b = || vec![fault_spec("list", ".", lists_before_rm - 1, kind), fault_spec("stat", "b0001/BANDHEAD", 0, kind), fault_spec("stat", "b0002/BANDHEAD", 0, kind)];
+        for j in 0..=(b_lock + 1) {
+            for k in 0..=(a_listed + 2) {
+                let mut sched = vec![true; j];
+                sched.extend(vec![false; k]);
+                sched.extend(vec![true; 400]);
+                let arch = fresh_copy(&sc, "cfrace");
+                let (ra, rb) = run_schedule_with_faults(&arch, &a, &b, &sched, vec![], faults_b());
+                let (post, _) = abstract_archive(&arch);
+                let post_map = state_map(&post);
+                let case = json!({"scenario": case_id, "schedule": format!("gc {j} operations, backup {k}, gc to the end, backup to the end"), "collector_faults": format!("its last listing of the archive directory and the stat of the next version's head both fail ({kind})")});
+                report.case(&format!("cfrace/{kind}/{j}/{k}"), true);
+                report.hit("gc-race-with-two-collector-faults");
+                for cband in complete_bands(&post) {
+                    let mut problems: Vec<String> = Vec::new();
+                    for (_, e) in band_entries(&post_map, cband) {
+                        if let Err(why) = entry_content(&post_map, &e) {
+                            problems.push(format!("{}: {}", e.apath, why));
+                        }
+                    }
+                    let (rr, _) = restore_observe(&arch, sc.run.work.path(), &Sel::Band(cband), "cfrace");
+                    if !problems.is_empty() || !rr.result.starts_with("result ok") || !rr.events.is_empty() {
+                        report.oracle_fail("gc-race:dangling-after-collector-faults", case.clone(), "a version that is complete after the race refers to a block the collector removed although its last look for a new version had failed", json!({"band": band_name(cband), "references": problems.iter().take(3).collect::<Vec<_>>(), "restore": trunc(&rr.result), "backup_result": trunc(&ra.result), "gc_result": trunc(&rb.result)}));
+                    }
+                }
+                remove_copy(&arch);
+            }
+        }
+    }
+}
+
 pub fn run(tier: &str, seed: u64, report: &mut Report) {
     late_removal_probe(report);
     break_lock_race(seed, report);
+    check_under_two_faults(seed, report);
     let thorough = tier == "thorough";
     let started = Instant::now();
     let budget_s = if thorough { 270 } else { 50 };
